@@ -280,6 +280,10 @@ class FlowObserver(object):
             # with-items tasks that still have items to offer
             if any("items_n" in e and len(e["items_offered"]) < (e["items_n"] or 0) for e in self.flow.open.values()):
                 self.flow.events.add("pending-with-unoffered-items")
+        elif op["op"] == "rerun" and not rec["rejected"]:
+            # a rerun resumes the workflow as well; tasks left pausing/paused by an earlier workflow pause stay so (R18)
+            if any("items_n" in e for e in self.flow.open.values()):
+                self.flow.events.add("resume-with-open-items")
         elif op["op"] == "req" and not rec["rejected"]:
             if op["status"] in ("resuming", "running") and rec["before"] in ("pausing", "paused"):
                 # trigger of known finding R18: tasks paused by the workflow pause are not resumed
